@@ -1,13 +1,318 @@
 (* C20 - Monitors and log files give back exactly what was recorded.
    Only statements, each closed by [exact] of a lemma proved in Pure/Monitor_Proofs.v or
-   Pure/LogCodec_Proofs.v. *)
-From Coq Require Import List ZArith Reals.
-From MV Require Import Common.Num Common.NumR Pure.Monitor Pure.Monitor_Proofs.
+   Pure/LogCodec_Proofs.v, followed by Print Assumptions; Examples at the end show that the
+   hypotheses are satisfiable.
+
+   Clauses of the property and where they are:
+     n calls -> length n                                   C20_len_after_n_calls
+     i-th x, y, id back unchanged, k transparent            C20_contents_after_calls, C20_nth_roundtrip (R, k<>0)
+     slicing / + / extend / prepend = concatenations        C20_slice_*, C20_add/extend/prepend_is_concat
+     ... never alter the monitor passed to them             C20_argument_unchanged, C20_step_untouched
+     LoggingMonitor output read back by logfile_reader      C20_parse_format_line, C20_parse_format_file
+     write_support/converge/raw_file read back              C20_support_roundtrip, C20_converge_roundtrip,
+                                                            C20_transpose_involutive, C20_ids_roundtrip, C20_file_ids_roundtrip
+   REFUTED on the unchanged tree (known findings, see known_findings.d/C20.txt):
+     the cost column of write_support_file / write_converge_file is divided by k twice:
+                                                            C20_support_file_cost_refuted / _partial
+     (files written from numpy scalars, mixed numpy/python costs, 0-d array costs with k, the stale
+      module cache of read_import are failures of Python-level printing/importing that the model does
+      not express; they are reported by the oracle only.) *)
+From Coq Require Import List ZArith Reals Ascii String.
+From MV Require Import Common.Num Common.NumR Pure.Monitor Pure.Monitor_Proofs Pure.LogCodec Pure.LogCodec_Proofs.
 Import ListNotations.
 
-(* ---- a monitor called n times has length n ---- *)
+(* ---------------------------------------------------------------- monitors *)
+
+(* a monitor called n times has length n (x, y and id all have n entries) *)
 Theorem C20_len_after_n_calls : forall (N : Num) (X I M : Type) (k : option (T N)) (rs : list (record N X I)),
   let m := call_all (new_monitor N X I M k) rs in
   mlen m = length rs /\ length (get_y m) = length rs /\ length (get_id m) = length rs.
 Proof. exact len_after_n_calls. Qed.
 Print Assumptions C20_len_after_n_calls.
+
+Theorem C20_len_after_more_calls : forall (N : Num) (X I M : Type) (m : monitor N X I M) (rs : list (record N X I)),
+  mlen (call_all m rs) = mlen m + length rs.
+Proof. exact len_after_more_calls. Qed.
+Print Assumptions C20_len_after_more_calls.
+
+(* x and id come back exactly (any numeric instance); y comes back exactly over R for k <> 0 *)
+Theorem C20_x_id_after_calls : forall (N : Num) (X I M : Type) (k : option (T N)) (rs : list (record N X I)),
+  get_x (call_all (new_monitor N X I M k) rs) = map rec_x rs /\
+  get_id (call_all (new_monitor N X I M k) rs) = map rec_id rs.
+Proof. intros. split; [apply get_x_calls|apply get_id_calls]. Qed.
+Print Assumptions C20_x_id_after_calls.
+
+Theorem C20_contents_after_calls : forall (X I M : Type) (k : option R) (rs : list (record NumR X I)),
+  knz k -> get_y (call_all (new_monitor NumR X I M k) rs) = map rec_y rs.
+Proof. exact get_y_calls. Qed.
+Print Assumptions C20_contents_after_calls.
+
+(* the i-th recorded (x, y, id) is returned unchanged by m[i], by m[i-n], and by m.id[i] *)
+Theorem C20_nth_roundtrip : forall (X I M : Type) (k : option R) (rs : list (record NumR X I)) (i : nat) x y id,
+  knz k -> nth_error rs i = Some (x, y, id) ->
+  let m := call_all (new_monitor NumR X I M k) rs in
+  getitem_int m (Z.of_nat i) = Some (x, y) /\
+  getitem_int m (Z.of_nat i - Z.of_nat (length rs)) = Some (x, y) /\
+  nth_error (get_id m) i = Some id.
+Proof. exact nth_roundtrip. Qed.
+Print Assumptions C20_nth_roundtrip.
+
+(* the error branch: indices outside [-n, n) raise IndexError (None) *)
+Theorem C20_nth_out_of_range : forall (X I M : Type) (k : option R) (rs : list (record NumR X I)) (i : Z),
+  (Z.of_nat (length rs) <= i \/ i < - Z.of_nat (length rs))%Z ->
+  getitem_int (call_all (new_monitor NumR X I M k) rs) i = None.
+Proof. exact nth_out_of_range. Qed.
+Print Assumptions C20_nth_out_of_range.
+
+(* extend / prepend / + are the concatenations of x, y (read back through each monitor's own k), id, info *)
+Theorem C20_extend_is_concat : forall (X I M : Type) (a b : monitor NumR X I M),
+  knz (mk a) -> knz (mk b) ->
+  let m := extend a b in
+  get_x m = get_x a ++ get_x b /\ get_y m = get_y a ++ get_y b /\
+  get_id m = get_id a ++ get_id b /\ minfo m = minfo a ++ minfo b /\ mk m = mk a.
+Proof. exact extend_is_concat. Qed.
+Print Assumptions C20_extend_is_concat.
+
+Theorem C20_prepend_is_concat : forall (X I M : Type) (a b : monitor NumR X I M),
+  knz (mk a) -> knz (mk b) ->
+  let m := prepend a b in
+  get_x m = get_x b ++ get_x a /\ get_y m = get_y b ++ get_y a /\
+  get_id m = get_id b ++ get_id a /\ minfo m = minfo b ++ minfo a /\ mk m = mk a.
+Proof. exact prepend_is_concat. Qed.
+Print Assumptions C20_prepend_is_concat.
+
+Theorem C20_add_is_concat : forall (X I M : Type) (a b : monitor NumR X I M),
+  knz (mk a) -> knz (mk b) ->
+  let m := madd a b in
+  get_x m = get_x a ++ get_x b /\ get_y m = get_y a ++ get_y b /\
+  get_id m = get_id a ++ get_id b /\ minfo m = minfo a ++ minfo b /\ mk m = mk a.
+Proof. exact extend_is_concat. Qed.
+Print Assumptions C20_add_is_concat.
+
+(* m[slice]: x, y, id are the python slices of m's x, y, id; info dropped, k kept; ValueError iff step = 0 *)
+Theorem C20_slice_contents : forall (N : Num) (X I M : Type) (m m' : monitor N X I M) (s : pyslice),
+  getitem_slice m s = Some m' ->
+  py_slice (get_x m) s = Some (get_x m') /\ py_slice (get_y m) s = Some (get_y m') /\
+  py_slice (get_id m) s = Some (get_id m') /\ minfo m' = [] /\ mk m' = mk m.
+Proof. exact getitem_slice_contents. Qed.
+Print Assumptions C20_slice_contents.
+
+Theorem C20_slice_error : forall (N : Num) (X I M : Type) (m : monitor N X I M) (s : pyslice),
+  getitem_slice m s = None <-> s_step s = Some 0%Z.
+Proof. exact getitem_slice_error. Qed.
+Print Assumptions C20_slice_error.
+
+(* python slice semantics, any start/stop/step (negative, out of range, None) *)
+Theorem C20_slice_spec : forall (A : Type) (l l' : list A) (s : pyslice),
+  py_slice l s = Some l' ->
+  exists start stop step, slice_bounds (length l) s = Some (start, stop, step) /\
+    (forall j, j < length l' ->
+       (0 <= start + Z.of_nat j * step < Z.of_nat (length l))%Z /\
+       nth_error l' j = nth_error l (Z.to_nat (start + Z.of_nat j * step))) /\
+    ((0 < step)%Z -> (stop <= start + Z.of_nat (length l') * step)%Z) /\
+    ((step < 0)%Z -> (start + Z.of_nat (length l') * step <= stop)%Z).
+Proof. exact @py_slice_spec. Qed.
+Print Assumptions C20_slice_spec.
+
+(* l[a:b] is a contiguous block, l[:a] + l[a:] = l for every a, l[:] = l *)
+Theorem C20_slice_contiguous : forall (A : Type) (l : list A) (a b : option Z),
+  let lo := clampn (length l) a 0 in let hi := clampn (length l) b (length l) in
+  py_slice l (mkSlice a b None) = Some (firstn (hi - lo) (skipn lo l)).
+Proof. exact @py_slice_contiguous. Qed.
+Print Assumptions C20_slice_contiguous.
+
+Theorem C20_slice_split : forall (A : Type) (l : list A) (a : Z),
+  exists l1 l2, py_slice l (mkSlice None (Some a) None) = Some l1 /\
+                py_slice l (mkSlice (Some a) None None) = Some l2 /\ l1 ++ l2 = l.
+Proof. exact @py_slice_split. Qed.
+Print Assumptions C20_slice_split.
+
+Theorem C20_slice_all : forall (A : Type) (l : list A), py_slice l (mkSlice None None None) = Some l.
+Proof. exact @py_slice_all. Qed.
+Print Assumptions C20_slice_all.
+
+(* no operation alters a monitor other than its target; +, extend, prepend, [slice] never alter their argument *)
+Theorem C20_step_untouched : forall (N : Num) (X I M : Type) (st st' : store N X I M) (o : op N X I M) (j : nat),
+  step st o = Some st' -> j < length st -> target N X I M o <> Some j -> nth_error st' j = nth_error st j.
+Proof. exact step_untouched. Qed.
+Print Assumptions C20_step_untouched.
+
+Theorem C20_argument_unchanged : forall (N : Num) (X I M : Type) (st st' : store N X I M) (a b : nat) (s : pyslice),
+  (step st (OAdd a b) = Some st' -> nth_error st' a = nth_error st a /\ nth_error st' b = nth_error st b) /\
+  (step st (OExtend a b) = Some st' -> nth_error st' b = nth_error st b) /\
+  (step st (OPrepend a b) = Some st' -> nth_error st' b = nth_error st b) /\
+  (step st (OSlice a s) = Some st' -> nth_error st' a = nth_error st a).
+Proof. exact argument_unchanged. Qed.
+Print Assumptions C20_argument_unchanged.
+
+Theorem C20_step_result : forall (N : Num) (X I M : Type) (st st' : store N X I M) (a b : nat) (ma mb : monitor N X I M),
+  nth_error st a = Some ma -> nth_error st b = Some mb ->
+  (step st (OAdd a b) = Some st' -> nth_error st' (length st) = Some (madd ma mb)) /\
+  (step st (OExtend a b) = Some st' -> nth_error st' a = Some (extend ma mb)) /\
+  (step st (OPrepend a b) = Some st' -> nth_error st' a = Some (prepend ma mb)).
+Proof. exact step_result. Qed.
+Print Assumptions C20_step_result.
+
+(* ---------------------------------------------------------------- cost column of the parameter files *)
+
+(* write_raw_file writes monitor.y: the recorded costs *)
+Theorem C20_raw_file_cost : forall (X I M : Type) (k : option R) (rs : list (record NumR X I)),
+  knz k -> raw_file_cost (call_all (new_monitor NumR X I M k) rs) = map rec_y rs.
+Proof. exact raw_file_cost_ok. Qed.
+Print Assumptions C20_raw_file_cost.
+
+(* FULL statement (false):  forall k rs, knz k -> support_file_cost (...) = map rec_y rs.
+   write_support_file / write_converge_file divide by k a second time: *)
+Theorem C20_support_file_cost_refuted :
+  exists (k : option R) (rs : list (record NumR unit unit)),
+    knz k /\ support_file_cost (call_all (new_monitor NumR unit unit unit k) rs) <> map rec_y rs.
+Proof. exact support_file_cost_refuted. Qed.
+Print Assumptions C20_support_file_cost_refuted.
+
+(* what does hold: the column is y/k, hence correct exactly when k is None or 1 *)
+Theorem C20_support_file_cost_spec : forall (X I M : Type) (k : option R) (rs : list (record NumR X I)),
+  knz k ->
+  support_file_cost (call_all (new_monitor NumR X I M k) rs) = map (fun r => unscale (N:=NumR) k (rec_y r)) rs.
+Proof. exact support_file_cost_spec. Qed.
+Print Assumptions C20_support_file_cost_spec.
+
+Theorem C20_support_file_cost_partial : forall (X I M : Type) (k : option R) (rs : list (record NumR X I)),
+  k = None \/ k = Some 1%R ->
+  support_file_cost (call_all (new_monitor NumR X I M k) rs) = map rec_y rs.
+Proof. exact support_file_cost_partial. Qed.
+Print Assumptions C20_support_file_cost_partial.
+
+(* ---------------------------------------------------------------- log codec *)
+
+(* any printer with read(show v) = v whose output has no blank, no newline, is not empty and does not
+   start with '[' : the line LoggingMonitor writes is parsed back by logfile_reader to the same entry
+   (iteration, id, scalar or vector cost, parameter list) *)
+Theorem C20_parse_format_line :
+  forall (V : Type) (show : V -> str) (read : str -> option V) (showi : Z -> str) (readi : str -> option Z),
+  (forall v, read (show v) = Some v) ->
+  (forall v, show v <> [] /\ nospb (show v) = true /\ nonlb (show v) = true) ->
+  (forall v c r, show v = c :: r -> Ascii.eqb c c_lb = false) ->
+  (forall z, readi (showi z) = Some z) ->
+  (forall z, showi z <> [] /\ nospb (showi z) = true /\ nonlb (showi z) = true) ->
+  forall e : entry V, parse_line V read readi (format_line V show showi e) = Some e.
+Proof. exact parse_format_line. Qed.
+Print Assumptions C20_parse_format_line.
+
+(* whole files: header and info lines ("# ...", no newline inside) interleaved with entries *)
+Theorem C20_parse_format_file :
+  forall (V : Type) (show : V -> str) (read : str -> option V) (showi : Z -> str) (readi : str -> option Z),
+  (forall v, read (show v) = Some v) ->
+  (forall v, show v <> [] /\ nospb (show v) = true /\ nonlb (show v) = true) ->
+  (forall v c r, show v = c :: r -> Ascii.eqb c c_lb = false) ->
+  (forall z, readi (showi z) = Some z) ->
+  (forall z, showi z <> [] /\ nospb (showi z) = true /\ nonlb (showi z) = true) ->
+  forall ls : list (fline V), Forall (comment_ok V) ls ->
+  parse_file V read readi (format_file V show showi ls) = Some (entries V ls).
+Proof. exact parse_format_file. Qed.
+Print Assumptions C20_parse_format_file.
+
+(* ---------------------------------------------------------------- support / converge / raw files *)
+
+Theorem C20_transpose_involutive : forall (A : Type) (n : nat) (X : list (list A)),
+  0 < n -> rect n X -> zipstar (zipstar X) = X.
+Proof. exact zipstar_involutive. Qed.
+Print Assumptions C20_transpose_involutive.
+
+(* write_support_file / read_support_file on n-dimensional trajectories (n > 0, at least one iteration) *)
+Theorem C20_support_roundtrip : forall (A : Type) (n : nat) (X : traj A),
+  0 < n -> X <> [] -> rect n X ->
+  read_support (support_params X) = [zipstar X] /\ zipstar (zipstar X) = X /\
+  length (zipstar X) = n /\ rect (length X) (zipstar X).
+Proof. exact support_roundtrip. Qed.
+Print Assumptions C20_support_roundtrip.
+
+Theorem C20_support_params_spec : forall (A : Type) (X : traj A),
+  support_params X = map (map (fun a => [a])) (zipstar X).
+Proof. exact support_params_spec. Qed.
+Print Assumptions C20_support_params_spec.
+
+Theorem C20_converge_roundtrip : forall (A : Type) (X : traj A),
+  Forall (fun x => x <> []) X -> read_converge (converge_params X) = map (fun x => [x]) X.
+Proof. exact converge_roundtrip. Qed.
+Print Assumptions C20_converge_roundtrip.
+
+(* the id column: _reduce_ids(_process_ids(ids, n)) = ids; iterations count occurrences per id;
+   write_raw_file's compression (None / single value / list) is undone by read_raw_file *)
+Theorem C20_ids_roundtrip : forall l : list (option Z),
+  exists steps, process_ids (IdsList l) (length l) = PList steps /\ reduce_ids steps = l /\ length steps = length l.
+Proof. exact ids_roundtrip. Qed.
+Print Assumptions C20_ids_roundtrip.
+
+Theorem C20_ids_iterations : forall (l : list (option Z)) (i : nat) (j : option Z),
+  forallb is_noneb l = false -> nth_error l i = Some j ->
+  exists steps, process_ids (IdsList l) (length l) = PList steps /\
+                nth_error steps i = Some (S2 (length (filter (oz_eqb j) (firstn i l))) j).
+Proof. exact ids_iterations. Qed.
+Print Assumptions C20_ids_iterations.
+
+Theorem C20_file_ids_roundtrip : forall l : list (option Z),
+  l <> [] -> exists steps, file_ids l (length l) = PList steps /\ reduce_ids steps = l /\ length steps = length l.
+Proof. exact file_ids_roundtrip. Qed.
+Print Assumptions C20_file_ids_roundtrip.
+
+(* ---------------------------------------------------------------- non-vacuity *)
+
+(* k-hypotheses: satisfiable, and the round trip is exhibited on a two-record history with k = -2 *)
+Example C20_knz_example :
+  knz (Some (-2)%R) /\
+  getitem_int (call_all (new_monitor NumR nat nat nat (Some (-2)%R))
+                 [(7, CS (N:=NumR) 3%R, Some 1); (8, CV (N:=NumR) [1%R; 2%R], None)]) (-1)%Z
+  = Some (8, CV (N:=NumR) [1%R; 2%R]).
+Proof.
+  split; [cbn; apply Rlt_not_eq; apply Ropp_lt_gt_0_contravar; apply Rlt_gt; apply Rlt_0_2|].
+  refine (proj1 (proj2 (nth_roundtrip nat nat nat (Some (-2)%R)
+     [(7, CS (N:=NumR) 3%R, Some 1); (8, CV (N:=NumR) [1%R; 2%R], None)] 1 8 (CV (N:=NumR) [1%R; 2%R]) None _ eq_refl))).
+  cbn. apply Rlt_not_eq. apply Ropp_lt_gt_0_contravar. apply Rlt_gt. apply Rlt_0_2.
+Qed.
+
+(* the codec hypotheses are met by a concrete printer: booleans as "0"/"1", integers in signed unary *)
+Definition ex_show (b : bool) : str := if b then lit "1" else lit "0".
+Definition ex_read (s : str) : option bool :=
+  match s with [c] => if Ascii.eqb c "1"%char then Some true else if Ascii.eqb c "0"%char then Some false else None | _ => None end.
+Definition ex_showi (z : Z) : str :=
+  (if (z <? 0)%Z then "-"%char else "+"%char) :: repeat "1"%char (Z.abs_nat z).
+Definition ex_readi (s : str) : option Z :=
+  match s with
+  | c :: r => if Ascii.eqb c "-"%char then Some (- Z.of_nat (length r))%Z
+              else if Ascii.eqb c "+"%char then Some (Z.of_nat (length r)) else None
+  | [] => None
+  end.
+Example C20_codec_hypotheses_satisfiable :
+  (forall v, ex_read (ex_show v) = Some v) /\
+  (forall v, ex_show v <> [] /\ nospb (ex_show v) = true /\ nonlb (ex_show v) = true) /\
+  (forall v c r, ex_show v = c :: r -> Ascii.eqb c c_lb = false) /\
+  (forall z, ex_readi (ex_showi z) = Some z) /\
+  (forall z, ex_showi z <> [] /\ nospb (ex_showi z) = true /\ nonlb (ex_showi z) = true).
+Proof.
+  assert (R1 : forall n, nospb (repeat "1"%char n) = true) by (induction n; cbn; auto).
+  assert (R2 : forall n, nonlb (repeat "1"%char n) = true) by (induction n; cbn; auto).
+  repeat split.
+  - intros []; reflexivity.
+  - destruct v; discriminate.
+  - destruct v; reflexivity.
+  - destruct v; reflexivity.
+  - intros [] c r H; inversion H; reflexivity.
+  - intro z. unfold ex_showi, ex_readi. destruct (z <? 0)%Z eqn:E.
+    + apply Z.ltb_lt in E. cbn. rewrite repeat_length. f_equal. rewrite Zabs2Nat.id_abs. rewrite Z.abs_neq; auto with zarith.
+    + apply Z.ltb_ge in E. cbn. rewrite repeat_length. f_equal. rewrite Zabs2Nat.id_abs. apply Z.abs_eq; auto.
+  - discriminate.
+  - unfold ex_showi. destruct (z <? 0)%Z; cbn; apply R1.
+  - unfold ex_showi. destruct (z <? 0)%Z; cbn; apply R2.
+Qed.
+(* ... and a concrete line makes the round trip by computation *)
+Example C20_codec_line_example :
+  let e := mkEntry 3%Z (Some (-2)%Z) (YV [true; false]) [false; true; true] in
+  format_line bool ex_show ex_showi e = lit "  (+111, -11)     [1, 0]   [0, 1, 1]" /\
+  parse_line bool ex_read ex_readi (format_line bool ex_show ex_showi e) = Some e.
+Proof. split; reflexivity. Qed.
+
+(* rectangular non-empty data exists, and zero-dimensional vectors are genuinely lost by the support format *)
+Example C20_support_example :
+  rect 2 [[1; 2]; [3; 4]; [5; 6]] /\ zipstar [[1; 2]; [3; 4]; [5; 6]] = [[1; 3; 5]; [2; 4; 6]] /\
+  zipstar (zipstar ([[]; []] : list (list nat))) <> [[]; []].
+Proof. split; [repeat constructor|split; [reflexivity|discriminate]]. Qed.
